@@ -276,3 +276,35 @@ func Harness_C04_serializePanic() {
 	zzsym.Assert(w.recovers == 0, "no recover hook for a request in which nothing failed")
 	zzsym.Reach("c04.serializepanic")
 }
+
+func Setup_C04_errorWithValue() { probeSetup() }
+
+// Harness_C04_errorWithValue: a resolver that returns an error together
+// with a non-nil value (it failed after building part of its result): the
+// position is null with one error, like any failed position - nullable and
+// non-null (with propagation), below list elements, with and without an
+// executable directive on the field.
+func Harness_C04_errorWithValue() {
+	docs := []string{
+		`{ me { best { id name } name } }`,
+		`{ me { boss { id } name } users { id } }`,
+		`{ users { link { id } id } }`,
+		`{ me { best @mark(k: 1) { id } friends { boss { id } } } }`,
+	}
+	spots := [][]string{{"me/User.best"}, {"me/User.boss"}, {"users[1]/User.link"}, {"me/User.best", "me.friends[0]/User.boss"}}
+	di := zzsym.Choice("doc", len(docs))
+	doc := mustLoad(docs[di])
+	w := newWorld(0, false)
+	w.outs["/Query.users"] = ref.Out{List: users("users[0]", "users[1]")}
+	w.outs["me/User.friends"] = ref.Out{List: users("me.friends[0]", "me.friends[1]")}
+	for _, sp := range spots[di] {
+		w.outs[sp] = ref.Out{K: ref.KErrVal, Obj: ref.NewUser("half-built")}
+	}
+	op := doc.Operations[0]
+	got := runOp(w, doc, op, nil)
+	want := ref.Execute(pSchema, doc, op, nil, w)
+	zzsym.Event("data", got.data)
+	zzsym.Assert(got.data == want.Data, "a position whose resolver returned an error is null, whatever value came with the error")
+	zzsym.Assert(len(want.Errors) >= 1 && sameErrors(got.errs, want.Errors), "one error at the failing position")
+	zzsym.Reach("c04.errval")
+}
